@@ -197,6 +197,37 @@ def udp_sizes(_):
   return n, bad[:2]
 
 
+def with_lists(_):
+  """The same alphabet with a whitelist that admits everything and a blacklist that matches nothing in force (the lists are
+  consulted for every datapoint, whatever its name looks like): nothing may change."""
+  env.boot()
+  import re
+  from carbon.regexlist import WhiteList, BlackList
+  bad = []
+  n = 0
+  extra = [('cpu.load;=oops', 1, 1.0), ('a;k', 2, 2.0), ('m;b=2;a=1', 3, 3.0), ('m{x="y"}', 4, 4.0)]
+  try:
+    for kind in ('line', 'pickle', 'udp'):
+      for dp in SIGMA + extra:
+        rig = wire.Rig(kind)
+        WhiteList.regex_list = [re.compile('.*')]
+        BlackList.regex_list = [re.compile('^never-sent$')]
+        data = wire.pickle_frame([dp], 2) if kind == 'pickle' else wire.line(*dp)
+        exc = rig.feed(data)
+        got = list(rig.delivered)
+        closing = rig.closing if kind != 'udp' else False
+        rig.close()
+        n += 1
+        if exc is not None or closing or not same_log(got, expected([dp])):
+          bad.append(('ingest-mismatch:' + kind, '%s listener with a whitelist (.*) and a blacklist (no match) in force: sent %r, delivered %r, '
+                      'exception %r, closing %r' % (kind, dp, got, exc, closing),
+                      {'kind': kind, 'sequence': [list(dp)], 'stream_hex': data.hex(), 'cuts': [], 'lists': True}))
+  finally:
+    WhiteList.regex_list = []
+    BlackList.regex_list = []
+  return n, bad[:2]
+
+
 def sequences(ctx):
   L = ctx.pick(2, 3)
   seqs = []
@@ -208,10 +239,16 @@ def sequences(ctx):
 
 def run(ctx):
   env.boot()
+  from .. import listenh
+  listenh.run_in(ctx, ctx.pick(6, 8))
   un, ubad = core.pmap(udp_sizes, [0])[0]
   for key, what, rep in ubad:
     ctx.violation(key, what, rep)
   ctx.add(udp_datagram_size_cases=un)
+  ln, lbad = core.pmap(with_lists, [0])[0]
+  for key, what, rep in lbad:
+    ctx.violation(key, what, rep)
+  ctx.add(cases_with_lists_in_force=ln)
   seqs = core.seeded_order(sequences(ctx), ctx.seed)
   nsh = 64 if not ctx.thorough else 256
   res = core.pmap(shard, [(seqs[i::nsh], 2) for i in range(nsh)], chunksize=1)
@@ -239,6 +276,13 @@ def run(ctx):
 def replay(path):
   body = json.load(open(path))
   rep = body['replay']
+  if 'listener' in rep:
+    from .. import listenh
+    return listenh.replay(rep)
+  if rep.get('lists'):
+    n, bad = with_lists(0)
+    print('oracle:', bad[0][1] if bad else 'holds')
+    return 1 if bad else 0
   if rep['kind'] == 'udp':
     rig = wire.Rig('udp')
     for g in rep['datagrams']:
